@@ -12,10 +12,16 @@ impl std::ops::Not for Predicate {
 #[derive(Clone, Copy)]
 pub enum ConstraintOperationError { InfeasiblePropagator, InfeasibleClause, InfeasibleNogood, InfeasibleState }
 pub enum StoredConflictInfo { RootLevelConflict(ConstraintOperationError), Other }
-pub struct CSPSolverState { pub inconsistent: bool }
+// `inconsistent` = conflicting, infeasible or infeasible under assumptions; `infeasible` is one of the three ways
+pub struct CSPSolverState { pub inconsistent: bool, pub infeasible: bool }
 impl CSPSolverState {
     #[verifier::external_body]
     pub fn is_inconsistent(&self) -> (r: bool) ensures r == self.inconsistent { unimplemented!() }
+    #[verifier::external_body]
+    pub fn is_infeasible(&self) -> (r: bool) ensures r == self.infeasible { unimplemented!() }
+    #[verifier::external_body]
+    pub fn is_conflicting(&self) -> (r: bool) ensures r ==> self.inconsistent, self.inconsistent && !self.infeasible ==> r || self.infeasible_under_assumptions() { unimplemented!() }
+    pub uninterp spec fn infeasible_under_assumptions(&self) -> bool;
     #[verifier::external_body]
     pub fn declare_conflict(&mut self, info: StoredConflictInfo) ensures final(self).inconsistent { unimplemented!() }
 }
@@ -60,6 +66,7 @@ impl ConstraintSatisfactionSolver {
         // root facts follow from the model
         &&& forall|p: Predicate, a: Asg| #![trigger root_falsified(self.assignments.state@, p), (self.model@)(a)] root_falsified(self.assignments.state@, p) && (self.model@)(a) ==> !pred_holds(p, a)
         &&& (self.state.inconsistent ==> forall|a: Asg| #![trigger (self.model@)(a)] !(self.model@)(a))
+        &&& (self.state.infeasible ==> self.state.inconsistent)
     }
     // what the solver stands for: the posted model, or nothing once it is inconsistent
     pub open spec fn sem(&self, a: Asg) -> bool { (self.model@)(a) && !self.state.inconsistent }
